@@ -64,6 +64,13 @@ class C01(Prop):
         case = {'formula': f, 'data': data, 'kind': rng.choice(['dt', 'dt', 'dt_off'])}
         if rng.random() < 0.1:
             case['useed'] = rng.randrange(1 << 30)
+        elif rng.random() < 0.12 and not any(g[0] in ('since', 'until', 'unless') and g[1] is not None
+                                             for g in lang.walk(f)):
+            from rtverif.props.c08 import PERIODS, MODES
+            case['period'] = [list(rng.choice(PERIODS)), rng.choice(['s', 'ms', 'us']),
+                              rng.choice(list(MODES) + ['both'] * 6),
+                              rng.randrange(1 << 30)]
+            return case
         if rng.random() < 0.25:
             # the same specification object evaluated again on other traces (other values, other lengths)
             case['more'] = [lang.gen_trace(rng, names, rng.choice([1, 2, 3, n, n + 3, 9]))
@@ -93,8 +100,27 @@ class C01(Prop):
             v.info['op:' + o] = 1
         v.info['len:%s' % ('1' if n == 1 else '2-5' if n <= 5 else '6+')] = 1
         ds = drive.dt_dataset(data, n)
+        sd = {'text': text, 'vars': names}
+        stamps = list(range(n))
+        if case.get('period'):
+            # another sampling period and default unit; the bounds (numbers of samples) are spelled as durations
+            import random
+            from fractions import Fraction as Fr
+            from rtverif.props.c08 import Speller, U
+            per, unit, mode, sseed = case['period']
+            P = per[0] * U[per[1]]
+            sp = Speller(random.Random(sseed), P, unit, mode)
+            try:
+                sd = {'text': lang.to_text(f, ivl_printer=sp.ivl), 'vars': names, 'consts': sp.consts,
+                      'period': (per[0], per[1], 0.1), 'unit': unit}
+                text = sd['text'] + ' [period %s%s, unit %s]' % (per[0], per[1], unit)
+                stamps = [float(Fr(i * P, U[unit])) for i in range(n)]
+                ds = drive.dt_dataset(data, n, stamps)
+                v.info['class:sampling-period'] = 1
+            except ValueError:
+                sd = {'text': text, 'vars': names}
         try:
-            mon = drive.Mon(kind, {'text': text, 'vars': names})
+            mon = drive.Mon(kind, sd)
             res = mon.evaluate(ds)
         except Exception as e:
             v.bad('raises:' + type(e).__name__, '%s on n=%d: evaluate raised %s: %s' % (text, n, type(e).__name__, e),
@@ -104,7 +130,7 @@ class C01(Prop):
                                                              for r in res):
             v.bad('shape', '%s: %d samples in, result %r' % (text, n, res if not isinstance(res, list) else len(res)))
             return v
-        if [r[0] for r in res] != list(range(n)):
+        if [r[0] for r in res] != stamps:
             v.bad('time-column', '%s: time column %s != input' % (text, fmt([r[0] for r in res])))
         obs = drive.values(res)
         i = first_diff(obs, exp, rel)
@@ -129,6 +155,8 @@ class C01(Prop):
                 v.bad('reuse-value', '%s: evaluate() #%d on the same specification object, trace %s: returned %s, '
                       'expected %s (first trace was %s)' % (text, k + 2, d2, fmt(drive.values(res2)), fmt(exp2), data))
                 return v
+        if case.get('period'):
+            return v
         # time-stamp independence, on a fresh object
         ts = alt_times(n)
         try:
